@@ -17,11 +17,14 @@ METAS = {
     "glue_noserde": m("Plain: derive_serde = false, private trait, raw identifiers as argument names"),
     "glue_rnames": m("Registry: method names r, read, rr_lookup, re_, x2 (names that begin like the raw-identifier prefix)"),
 }
+METAS["glue_serde_tags_varint"] = {"desc": "Shop: sibling methods check_out / checkout (variants CheckOut / Checkout): the generated request and response enums come back from the wire model (positional, bincode-like) as the same variant with the same fields",
+                                   "symbolic": ["which sibling", "a, b (u32)"], "bounds": "one request + one response, unwind 20", "covers": 2}
+METAS["glue_serde_tags_json"] = dict(METAS["glue_serde_tags_varint"], desc="same through the name-tagged (JSON-like) convention: two variants sharing a tag would be conflated")
 CTX_ARG = {"glue_ctx_arg": m("Relay: an RPC argument named `ctx` of type Context — only if the macro accepts the definition: implementor gets the request's context, the argument arrives as the argument")}
 STATIC = {
     "coverage": {
         "functions_encoded": [
-            "output of tarpc_plugins::service (plugins/src/lib.rs: trait_service, struct_server, impl_serve_for_server, enum_request + RequestName, enum_response, struct_client, From<Stub>, impl_client_rpc_methods) expanded by the real proc macro for 6 service definitions / 24 methods",
+            "output of tarpc_plugins::service (plugins/src/lib.rs: trait_service, struct_server, impl_serve_for_server, enum_request + RequestName, enum_response, struct_client, From<Stub>, impl_client_rpc_methods) expanded by the real proc macro for 7 service definitions / 26 methods",
             "tarpc::client::stub::Stub (harness Direct<S> stub), tarpc::server::Serve",
         ],
         "programs": 5,
